@@ -10,7 +10,9 @@ def graphP : P Graph := do
   let nImg ← nat
   let nDom ← nat
   let adj ← many nDom natList
-  pure { nImg := nImg, adj := adj }
+  let g : Graph := { nImg := nImg, adj := adj }
+  -- the hypothesis `g.wf = true` of the kernel theorems is evaluated on every input graph
+  if g.wf then pure g else throw "graph not well-formed (image index >= num_nodes_image)"
 
 /-- a graph as the harness shows it: the two vectors and the scalar observers
 (`get_num_nodes_domain`, `get_num_indices`, `degree()`, `degree(i)` for every domain node) -/
